@@ -139,8 +139,33 @@ def oracle(ctx, text):
         ctx.fail('plain script (raw text): number of statements', text, observed=[got, got2], required=want)
 
 
+def dictionary_sweep(ctx):
+    """plain statements containing EVERY dictionary word in ordinary positions — also inside parentheses and inside plain CREATE … AS statements
+    (no BEGIN): the script is split at its top-level semicolons.  Only the words that really open/close splitter state in such a statement are
+    left out (BEGIN, DECLARE, END, CREATE, GO)."""
+    import props.C18 as C18
+    rng = ctx.rng
+    words = [w for w in C18.all_dictionary_words() if w not in ('BEGIN', 'DECLARE', 'END', 'CREATE', 'GO')]
+    if ctx.quick():
+        words = [w for w in words if rng.random() < 0.3] + ['FOR', 'IF', 'WHILE', 'CASE', 'LOOP', 'EXISTS', 'UPDATE']
+    shapes = ['select %s x from t; select 2', 'select f(a %s b) from t; select 2; select 3', 'create view v as select %s from u; select 2',
+              'create table c as (select a from x %s y); select 2; select 3', 'insert into t values (1, %s 2); select 2']
+    for sh in shapes:
+        want = sh.count(';') + 1
+        for w in words:
+            text = sh % (w if rng.random() < 0.5 else w.lower())
+            ctx.evaluations += 1
+            try:
+                got = [len(sqlparse.split(text)), len(sqlparse.parse(text))]
+            except Exception as e:
+                got = 'raised ' + type(e).__name__
+            if got != [want, want]:
+                ctx.fail('plain script (dictionary sweep): number of statements', text, observed=got, required=want)
+
+
 def run(ctx):
     rng = ctx.rng
+    dictionary_sweep(ctx)
     n = ctx.n(400, 12000)
     g = grammar.Gen(rng, feat={'sqlfor': True})
     model_q = []
